@@ -121,6 +121,13 @@ def unit_set(rnd):
             for _ in range(rnd.randint(0, 2)):
                 L.append('Network=' + rnd.choice([ref('network'), ref('container'), ref('network') + ':ip=1.2.3.4', 'host', ref('container') + ':x',
                                                   ref('network') + ':mac=92:d0:c6:0a:29:33', ref('network') + ':ip6=fd00::5,alias=a:b', 'bridge:ip=10.0.0.2:x']))
+            if rnd.random() < 0.25:
+                # the same unit referenced more than once in one unit, and next to a hand-written dependency on its service
+                v = ref('volume')
+                L += [f'Volume={v}:/first', rnd.choice([f'Volume={v}:/second:ro', f'Mount=type=volume,source={v},dst=/m2'])]
+            if rnd.random() < 0.1:
+                im = ref('image')
+                L += [f'Mount=type=image,source={im},dst=/i1', f'Mount=type=image,src={im},dst=/i2']
             for _ in range(rnd.randint(0, 2)):
                 L.append('Volume=' + rnd.choice([ref('volume') + ':/data', ref('volume') + ':/d:ro', '/host:/c', 'named:/n', ref('volume') + ':/d:ro:z,U',
                                                  ref('volume'), '/only-dest', ref('volume') + ':/d:']))
